@@ -1204,7 +1204,7 @@ Lemma r_open_ok w o : wgood w -> o_ns o = w_n w ->
   exists o', r_open w o = Some o' /\ o_ns o' = w_n w /\ o_file o' = o_file o /\
     o_nbytes o' = o_nbytes o /\
     o_raw o' = (match o_file o with DBin => RawMemmap | DCbin => RawMtscomp end) /\
-    (o_warn o' = true <-> (o_file o = DBin /\ o_nbytes o <> 2 * w_n w * w_nc w)).
+    (o_warn o' = true <-> (o_file o = DBin /\ o_nbytes o <> 2 * w_n w * w_nc w /\ w_iw w = false)).
 Proof.
   intros [Hn [Hc Hh]] Hs. unfold r_open. destruct (o_file o) eqn:Ef.
   - (* bin *)
@@ -1219,9 +1219,11 @@ Proof.
     { apply andb_true_intro. split; [apply Z.ltb_lt; lia|apply Z.leb_le; unfold fsize; lia]. }
     rewrite Hchk. eexists. split; [reflexivity|]. cbn [o_ns o_file o_nbytes o_raw o_warn].
     repeat (split; [reflexivity|]). unfold mism. rewrite Hs. split.
-    + intros H. split; [reflexivity|]. apply negb_true_iff, Z.eqb_neq in H.
+    + intros H. apply andb_prop in H. destruct H as [H Hi]. apply negb_true_iff in Hi.
+      split; [reflexivity|split; [|exact Hi]]. apply negb_true_iff, Z.eqb_neq in H.
       intros E. apply H. rewrite E. ring.
-    + intros [_ H]. apply negb_true_iff, Z.eqb_neq. intros E. apply H. rewrite <- E. ring.
+    + intros [_ [H Hi]]. apply andb_true_intro. split; [|now rewrite Hi].
+      apply negb_true_iff, Z.eqb_neq. intros E. apply H. rewrite <- E. ring.
   - (* cbin *)
     rewrite Hh, Hs, Z.eqb_refl. eexists. split; [reflexivity|]. cbn [o_ns o_file o_nbytes o_raw o_warn].
     split; [reflexivity|split; [reflexivity|split; [reflexivity|split; [reflexivity|]]]].
@@ -1249,14 +1251,15 @@ Proof.
   destruct (r_open_ok w o Hw Hs) as [o' [E [H1 [H2 [H3 [H4 H5]]]]]].
   exists o'. repeat (split; [assumption|]).
   destruct (o_warn o') eqn:Ew; [|reflexivity].
-  destruct H5 as [H5 _]. destruct (H5 eq_refl) as [Hf Hne].
+  destruct H5 as [H5 _]. destruct (H5 eq_refl) as [Hf [Hne _]].
   exfalso. apply Hne. rewrite (Hb Hf). reflexivity.
 Qed.
 
 Lemma r_step_inv w s op : wgood w -> RInv w s -> RInv w (fst (r_step w s op)).
 Proof.
   intros Hw [Hs [Hb [Hr Hwn]]]. unfold RInv.
-  destruct op as [|keep|keep|sd]; cbn [r_step].
+  destruct op as [| |keep|keep|sd]; cbn [r_step].
+  - cbn [fst]. split; [exact Hs|split; [exact Hb|split; [exact Hr|exact Hwn]]].
   - destruct (r_open_inv w (s_obj s) Hw Hs Hb Hwn) as [o' [E [H1 [H2 [H3 [H4 H5]]]]]].
     rewrite E. cbn [fst s_obj]. split; [exact H1|split; [|split; [|exact H5]]].
     + intros Hf. rewrite H3. apply Hb. rewrite <- H2. exact Hf.
@@ -1300,7 +1303,8 @@ Lemma r_step_noraise w s op : wgood w -> RInv w s ->
   (exists k, op = RDecompress k /\ o_file (s_obj s) = DBin) \/
   (op = RScratch true /\ o_file (s_obj s) = DBin /\ s_sb s = false).
 Proof.
-  intros Hw [Hs [Hb [Hr Hwn]]]. destruct op as [|keep|keep|sd]; cbn [r_step].
+  intros Hw [Hs [Hb [Hr Hwn]]]. destruct op as [| |keep|keep|sd]; cbn [r_step].
+  - discriminate.
   - destruct (r_open_inv w (s_obj s) Hw Hs Hb Hwn) as [o' [E _]]. rewrite E. discriminate.
   - destruct (o_file (s_obj s)); [discriminate|]. intros _. left. eauto.
   - destruct (o_file (s_obj s)) eqn:Ef; [intros _; right; left; eauto|].
@@ -1330,7 +1334,7 @@ Proof.
 Qed.
 
 (* witnesses: a 11 x 3 recording (66 bytes) whose x.cbin has 93 bytes *)
-Definition w_ex : rworld := mkW 11 3 93 11.
+Definition w_ex : rworld := mkW 11 3 93 11 false.
 
 (* what is still not refreshed: compress_file(keep_original=False) keeps the
    size of x.bin in nbytes while the object points at x.cbin.  Nothing reads
@@ -1342,3 +1346,32 @@ Lemma stale_nbytes_on_cbin_witness :
   o_file o = DCbin /\ o_nbytes o = 66 /\ fsize w_ex DCbin = 93 /\ o_warn o = false /\ o_ns o = 11 /\
   o_raw o = RawMtscomp.
 Proof. vm_compute. auto 7. Qed.
+
+(* open() with ANY sample count in the meta file (longer, shorter, right) and
+   either ignore_warnings: a freshly constructed object (nbytes = size of its
+   file) exposes the true count afterwards, on x.bin as on x.cbin; the warning
+   is logged iff the count was wrong and ignore_warnings is off *)
+Lemma r_open_any_meta w f ns0 : wgood w ->
+  exists o', r_open w (r_init w f ns0) = Some o' /\ o_ns o' = w_n w /\ o_file o' = f /\
+    o_raw o' = (match f with DBin => RawMemmap | DCbin => RawMtscomp end) /\
+    o_warn o' = negb (ns0 =? w_n w) && negb (w_iw w).
+Proof.
+  intros [Hn [Hc Hh]]. unfold r_open, r_init. cbn [o_file o_ns o_nbytes]. destruct f.
+  - assert (Hdiv : fsize w DBin / (2 * w_nc w) = w_n w).
+    { unfold fsize. replace (2 * w_n w * w_nc w) with (w_n w * (2 * w_nc w)) by lia.
+      apply Z.div_mul. lia. }
+    assert (Hm : negb (w_nc w * ns0 * 2 =? fsize w DBin) = negb (ns0 =? w_n w)).
+    { f_equal. unfold fsize. destruct (ns0 =? w_n w) eqn:E.
+      - apply Z.eqb_eq in E. subst. apply Z.eqb_eq. ring.
+      - apply Z.eqb_neq in E. apply Z.eqb_neq. intros H. apply E. nia. }
+    rewrite Hm.
+    assert (Hns : (if negb (ns0 =? w_n w) then fsize w DBin / (2 * w_nc w) else ns0) = w_n w).
+    { destruct (ns0 =? w_n w) eqn:E; cbn; [apply Z.eqb_eq in E; exact E|exact Hdiv]. }
+    rewrite Hns.
+    assert (Hchk : (0 <? w_n w) && (w_n w * w_nc w * 2 <=? fsize w DBin) = true).
+    { apply andb_true_intro. split; [apply Z.ltb_lt; lia|apply Z.leb_le; unfold fsize; lia]. }
+    rewrite Hchk. eexists. split; [reflexivity|]. cbn. auto.
+  - rewrite Hh. rewrite (Z.eqb_sym (w_n w) ns0).
+    destruct (ns0 =? w_n w) eqn:E; eexists; (split; [reflexivity|]); cbn;
+      [apply Z.eqb_eq in E; subst; auto|auto].
+Qed.
